@@ -291,6 +291,7 @@ Proof.
   set (base := TStr :: TPunct "=" :: TIdent "go_package" :: TIdent "option" :: toks).
   destruct (lex_from LNormal base post) as [st toks'] eqn:E.
   destruct (lex_from_ext post LNormal base) as [e1 H1]. rewrite E in H1. cbn [snd] in H1. subst toks'.
+  rewrite <- rev_alt.
   destruct (lex_flush_ext st (e1 ++ base)) as [e2 H2]. rewrite H2.
   unfold base. rewrite !rev_app_distr. cbn [rev app]. rewrite <- !app_assoc. cbn [app].
   apply found_mid.
@@ -384,6 +385,7 @@ Proof.
   destruct (scan_from_lex c LNormal 0 []) as (ext & E1 & E2).
   rewrite E2. destruct (lex_from LNormal [] c) as [st toks] eqn:El. cbn [fst] in *.
   assert (toks = ext) by (rewrite app_nil_r in E1; congruence). subst toks.
+  rewrite <- rev_alt.
   set (m := fold_left gp_next (rev ext) 0).
   assert (Hm : m <= 4) by (apply fold_gp_le; lia).
   assert (Hf : Nat.eqb (flush_str st m) 4
